@@ -909,7 +909,11 @@ def run(ctx):
                        "node order of a dual and edge order of a complement come from Python set iteration and are compared as sets",
                        "SimplicialComplex.copy on a closed complex is modelled as an equal unfrozen network",
                        "from_max_simplices on a complex whose first maximal simplex lists a string before a non-string label "
-                       "is rejected by add_edges_from's format sniffing; treated as outside the function's domain"]
+                       "is rejected by add_edges_from's format sniffing; treated as outside the function's domain",
+                       "the model describes cleanup / largest_connected_hypergraph with proposed_fixes/C19-cleanup-null-network.diff "
+                       "applied; on the unchanged tree the ValueError on a null network is reported as the known finding and "
+                       "largest_connected_hypergraph(null network) raising is accepted",
+                       "SimplicialComplex.cleanup and DiHypergraph.cleanup are checked by the predicate only (no model)"]
     return finish(ctx, trusted_base=TRUSTED_COMMON + [
         "harness/props/c19.py: brute-force definitions (itertools, union-find) used as the predicate; network builder/encoder",
         "the private read copy.copy(H._edge_uid) for the counter"])
